@@ -336,6 +336,7 @@ def extInst (m : Module) (ty : Nat) (n : Nat) (args : List Val) : M Val := do
       else pure (fun1 fRoundEvenF a))
   | 2 => a1 (fun a => pure (fun1 fRoundEvenF a))                    -- RoundEven
   | 3 => a1 (fun a => pure (fun1 fTruncF a))                        -- Trunc
+  | 6 => a1 (fun a => pure (fun1 fSignF a))                         -- FSign
   | 8 => a1 (fun a => pure (fun1 Float32.floor a))                  -- Floor
   | 9 => a1 (fun a => pure (fun1 Float32.ceil a))                   -- Ceil
   | 4 => a1 (fun a => pure (a &&& 0x7FFFFFFF#32))                 -- FAbs
